@@ -3,7 +3,7 @@
 //! didClose notifications, pull diagnostics, hover / definition / references / completion /
 //! documentSymbol requests, shutdown + exit).
 //!
-//! usage: c19 <path-to-nls> [--no-oracle]
+//! usage: c19 <path-to-nls> [--no-oracle] [--state] [--scratch <dir>]
 //! stdin : one case per line   `<N> <disk> <ops>`
 //!            disk := `-` | `<p>=<content>,...`          (files that exist on disk, fixed)
 //!            ops  := `O<p>=<content>` | `C<p>=<content>` | `X<p>`   comma separated
@@ -679,7 +679,14 @@ fn main() {
     let exe = args.get(1).expect("usage: c19 <nls> [--no-oracle]").clone();
     let oracle = !args.iter().any(|a| a == "--no-oracle");
     let want_state = args.iter().any(|a| a == "--state");
-    let root = std::env::temp_dir().join(format!("verif-c19-{}", std::process::id()));
+    // scratch directory: `--scratch <dir>` (a sub-directory per process is created in it), else /tmp
+    let base = args
+        .iter()
+        .position(|a| a == "--scratch")
+        .and_then(|i| args.get(i + 1))
+        .map(PathBuf::from)
+        .unwrap_or_else(std::env::temp_dir);
+    let root = base.join(format!("verif-c19-{}", std::process::id()));
     fs::create_dir_all(&root).unwrap();
     let stdin = std::io::stdin();
     let mut out = std::io::stdout().lock();
